@@ -9,11 +9,15 @@ import (
 	"bytes"
 	"context"
 	"fmt"
+	"go/ast"
+	"go/parser"
+	"go/token"
 	"os"
 	"path/filepath"
 	"strings"
 	"sync"
 	"testing"
+	"time"
 
 	"github.com/grafana/regexp"
 
@@ -23,7 +27,8 @@ import (
 
 type vfC04Repo struct {
 	name string
-	meta map[string]string
+	meta map[string]string // logical values; the shard stores pad+value
+	pad  string
 	docs []vfC04Doc
 }
 type vfC04Doc struct {
@@ -35,6 +40,7 @@ type vfC04World struct {
 	blob  []byte
 	ndocs int
 	byDoc map[string]int
+	pad   string // metadata values are pad+value (long values make the per-repository regexp evaluation slow)
 }
 
 type vfC04Mem struct{ b []byte }
@@ -52,7 +58,14 @@ func (s *vfC04Mem) Size() (uint32, error) { return uint32(len(s.b)), nil }
 var vfC04Words = []string{"needle", "apple", "banana"}
 
 func vfC04Simple(t testing.TB, rp *vfC04Repo) []byte {
-	b, err := NewShardBuilder(&zoekt.Repository{Name: rp.name, Metadata: rp.meta})
+	md := rp.meta
+	if rp.pad != "" {
+		md = map[string]string{}
+		for k, v := range rp.meta {
+			md[k] = rp.pad + v
+		}
+	}
+	b, err := NewShardBuilder(&zoekt.Repository{Name: rp.name, Metadata: md})
 	if err != nil {
 		t.Fatal(err)
 	}
@@ -85,8 +98,43 @@ func vfC04NewWorld(t testing.TB, r *vfRand, tag string) *vfC04World {
 		}
 		gen = append(gen, rp)
 	}
+	return vfC04BuildWorld(t, tag, gen)
+}
+
+// vfC04BuildWorld writes the repositories as one shard (simple, or compound via index.Merge) and records the
+// shard's own repository / document order.
+func vfC04BuildWorld(t testing.TB, tag string, gen []*vfC04Repo) *vfC04World {
+	return vfC04BuildWorldOpt(t, tag, gen, false)
+}
+
+// direct = one ShardBuilder fed with all repositories (what Merge does internally, without a builder and a file
+// per repository; used for the large shards of the concurrent run)
+func vfC04BuildWorldOpt(t testing.TB, tag string, gen []*vfC04Repo, direct bool) *vfC04World {
+	n := len(gen)
 	w := &vfC04World{byDoc: map[string]int{}}
-	if n == 1 {
+	if direct {
+		b := newShardBuilder(0)
+		b.indexFormatVersion = NextIndexFormatVersion
+		for _, rp := range gen {
+			md := map[string]string{}
+			for k, v := range rp.meta {
+				md[k] = rp.pad + v
+			}
+			if err := b.setRepository(&zoekt.Repository{Name: rp.name, Metadata: md}); err != nil {
+				t.Fatal(err)
+			}
+			for _, dc := range rp.docs {
+				if err := b.Add(Document{Name: dc.name, Content: []byte(dc.content)}); err != nil {
+					t.Fatal(err)
+				}
+			}
+		}
+		var buf bytes.Buffer
+		if err := b.Write(&buf); err != nil {
+			t.Fatal(err)
+		}
+		w.blob = buf.Bytes()
+	} else if n == 1 {
 		w.blob = vfC04Simple(t, gen[0])
 	} else {
 		dir, err := os.MkdirTemp(os.Getenv("VERIF_TMP"), "c04-"+tag+"-")
@@ -181,7 +229,11 @@ func vfC04Atom(r *vfRand, w *vfC04World) vfC04Q {
 	case x < 6:
 		i := r.Intn(len(vfC04MetaKeys))
 		mk := vfC04MetaKeys[i]
-		return vfC04Q{&query.Meta{Field: mk.field, Value: regexp.MustCompile("^" + mk.value + "$")}, "meta." + mk.field + ":" + mk.value, "(CMeta " + cN(uint64(i+1)) + ")", 1}
+		re := "^" + mk.value + "$"
+		if w.pad != "" {
+			re = "^x*" + mk.value + "$"
+		}
+		return vfC04Q{&query.Meta{Field: mk.field, Value: regexp.MustCompile(re)}, "meta." + mk.field + ":" + mk.value, "(CMeta " + cN(uint64(i+1)) + ")", 1}
 	case x < 8:
 		wd := r.Pick(vfC04Words)
 		return vfC04Q{&query.Substring{Pattern: wd, Content: true}, "content:" + wd, w.docsTerm(func(_ *vfC04Repo, dc *vfC04Doc) bool { return strings.Contains(dc.content, wd) }), 0}
@@ -364,4 +416,310 @@ func TestVerifC04Race(t *testing.T) {
 		}
 		vfEmit(map[string]any{"kind": "info", "race_case": i, "cache_size": size, "ok": bad == ""})
 	}
+}
+
+// TestVerifC04Conc (quick and thorough tier): CONCURRENT histories. One large compound shard (dozens of
+// repositories whose metadata match a Meta atom only partly, so the atom is not folded to a constant and the
+// matching repositories alternate along the document order), loaded with the docMatchTree cache enabled;
+// several goroutines issue the same and different queries (Meta-heavy, drawn from one small pool, so equal Meta
+// atoms are evaluated at the same time and hit the same cache entries) against the ONE loaded searcher. Every
+// single result is compared with the result of the same query alone on a freshly loaded searcher. Each round
+// starts from a freshly loaded (cold cache) searcher, so rounds cover concurrent misses, adds, evictions and
+// hits; three of four rounds are short bursts (two searches per goroutine) to get many cold starts. Metadata values are padded (world dependent) so that evaluating the regexp takes from ~100 ns to tens
+// of microseconds: whatever per-search work is (wrongly) done through state shared between searches gets a
+// realistic window. The oracle flags nothing but a result that differs from the solo result.
+func TestVerifC04Conc(t *testing.T) {
+	r := vfNewRand(vfSeed() + 404)
+	n := 4
+	if v := os.Getenv("VERIF_C04_CONC_N"); v != "" {
+		fmt.Sscan(v, &n)
+	}
+	rounds := 96
+	if v := os.Getenv("VERIF_C04_CONC_ROUNDS"); v != "" {
+		fmt.Sscan(v, &rounds)
+	}
+	const workers = 8
+	const perWorker = 6
+	const passes = 2
+	for i := 0; i < n; i++ {
+		pad := strings.Repeat("x", []int{0, 64, 1000, 3000}[(i+int(vfSeed()))%4])
+		nrepos := 24 + r.Intn(100)
+		var gen []*vfC04Repo
+		for j := 0; j < nrepos; j++ {
+			rp := &vfC04Repo{name: fmt.Sprintf("repo%03d", j), pad: pad,
+				meta: map[string]string{"k": r.Pick([]string{"yes", "yes", "no"}), "lang": r.Pick([]string{"go", "py"})}}
+			if r.Chance(10) {
+				delete(rp.meta, "k")
+			}
+			for d, nd := 0, 1+r.Intn(4); d < nd; d++ {
+				var ws []string
+				for k, nw := 0, 1+r.Intn(3); k < nw; k++ {
+					ws = append(ws, r.Pick(vfC04Words))
+				}
+				rp.docs = append(rp.docs, vfC04Doc{name: fmt.Sprintf("%s/f%d.txt", rp.name, d), content: strings.Join(ws, " ") + "\n"})
+			}
+			gen = append(gen, rp)
+		}
+		t0 := time.Now()
+		w := vfC04BuildWorldOpt(t, fmt.Sprint("conc", i), gen, i%4 != 3) // every fourth world through index.Merge
+		w.pad = pad
+		tBuild := time.Since(t0)
+		size := []int{1, 2, 10, 10, 10}[r.Intn(5)]
+		t.Setenv("ZOEKT_DOCMATCHTREE_CACHE", fmt.Sprint(size))
+		// pool of queries shared by the goroutines: at least two with Meta atoms
+		var pool []vfC04Q
+		for len(pool) < 5 {
+			q := vfC04Query(r, w, 2)
+			if len(pool) < 2 && q.meta == 0 {
+				continue
+			}
+			pool = append(pool, q)
+		}
+		wants := make([]string, len(pool))
+		var poolDesc []string
+		for k, q := range pool {
+			wants[k] = fmt.Sprint(w.run(t, w.load(t), q.q))
+			poolDesc = append(poolDesc, q.desc)
+		}
+		hists := make([][]int, workers)
+		for g := range hists {
+			for k := 0; k < perWorker; k++ {
+				hists[g] = append(hists[g], r.Intn(len(pool)))
+			}
+		}
+		type diff struct {
+			round, g, k, qi int
+			got             string
+		}
+		var mu sync.Mutex
+		var first *diff
+		ndiff, total := 0, 0
+		for round := 0; round < rounds; round++ {
+			s := w.load(t)
+			start := make(chan struct{})
+			var wg sync.WaitGroup
+			for g := 0; g < workers; g++ {
+				wg.Add(1)
+				go func(g int) {
+					defer wg.Done()
+					<-start
+					// every fourth round runs the whole history twice; the others are short bursts on the cold cache
+					// (first two searches of every goroutine): concurrent misses / adds / first uses of a cached node
+					np, hist := passes, hists[g]
+					if round%4 != 0 {
+						// burst: all goroutines start with the SAME query (maximal contention on one cache entry), then differ
+						np, hist = 1, []int{round % len(pool), (round + g) % len(pool)}
+					}
+					for pass := 0; pass < np; pass++ {
+						for k, qi := range hist {
+							res, err := s.Search(context.Background(), pool[qi].q, &zoekt.SearchOptions{})
+							got := "error"
+							if err == nil {
+								l := []int{}
+								for _, f := range res.Files {
+									idx, ok := w.byDoc[f.FileName]
+									if !ok {
+										idx = 9999
+									}
+									l = append(l, idx)
+								}
+								got = fmt.Sprint(l)
+							} else {
+								got = "error: " + err.Error()
+							}
+							mu.Lock()
+							total++
+							if got != wants[qi] {
+								ndiff++
+								if first == nil {
+									first = &diff{round, g, k, qi, got}
+								}
+							}
+							mu.Unlock()
+						}
+					}
+				}(g)
+			}
+			close(start)
+			wg.Wait()
+		}
+		if first != nil {
+			qi := first.qi
+			var shard []string
+			for _, rp := range w.repos {
+				shard = append(shard, fmt.Sprintf("%s k=%s lang=%s docs=%d", rp.name, rp.meta["k"], rp.meta["lang"], len(rp.docs)))
+			}
+			vfOracleFail(fmt.Sprintf("concurrent-result-differs:cache=%v", size > 0),
+				fmt.Sprintf("%d of %d concurrent searches (%d goroutines on one loaded shard, cache size %d) differ from the same query alone on a freshly loaded searcher; first: round %d goroutine %d search %d, query %s returns %s, alone it returns %s",
+					ndiff, total, workers, size, first.round, first.g, first.k, pool[qi].desc, first.got, wants[qi]),
+				map[string]any{"seed": vfSeed(), "test": "TestVerifC04Conc", "world": i, "cache_size": size, "metadata_value_padding": len(pad),
+					"repos": len(w.repos), "docs": w.ndocs, "shard": shard, "pool": poolDesc, "goroutine_histories": hists, "rounds": rounds, "passes": passes,
+					"differing": ndiff, "searches": total, "query": pool[qi].desc, "got": first.got, "alone": wants[qi],
+					"rerun": fmt.Sprintf("VERIF_SEED=%d ./check C04 (the schedule is chosen by the Go runtime; %d of %d searches differed in this run)", vfSeed(), ndiff, total)})
+		}
+		t.Logf("conc world %d: %d repos %d docs pad %d cache %d: build %v, total %v, %d/%d differ", i, len(w.repos), w.ndocs, len(pad), size, tBuild, time.Since(t0), ndiff, total)
+		vfEmit(map[string]any{"kind": "info", "conc_world": i, "cache_size": size, "repos": len(w.repos), "docs": w.ndocs, "pad": len(pad),
+			"searches": total, "differing": ndiff, "pool": poolDesc})
+	}
+}
+
+// TestVerifC04Sharing (translator): the sharing discipline of the docMatchTree cache, read off the source.
+// In newMatchTree's `case *query.Meta` the node stored in the cache carries a predicate closure that every
+// later search of the atom calls, concurrently. The model (Model/DocCache.v, `sharing`) requires the shared part
+// to be immutable: this test lists every write the closure (and function literals nested in it) makes to a
+// variable captured from outside the closure — plain / op assignments, ++/--, writes through an index, field
+// or pointer rooted in such a variable — and whether a cache hit hands out the cached node itself.
+// Output: one record {"kind":"sharing", ...}; props/C04/prop.py turns it into coq/Generated/C04Sharing.v.
+func TestVerifC04Sharing(t *testing.T) {
+	fset := token.NewFileSet()
+	f, err := parser.ParseFile(fset, "matchtree.go", nil, 0)
+	if err != nil {
+		t.Fatal(err)
+	}
+	var metaCase *ast.CaseClause
+	ast.Inspect(f, func(n ast.Node) bool {
+		fd, ok := n.(*ast.FuncDecl)
+		if !ok || fd.Name.Name != "newMatchTree" || fd.Body == nil {
+			return true
+		}
+		ast.Inspect(fd.Body, func(n ast.Node) bool {
+			cc, ok := n.(*ast.CaseClause)
+			if !ok {
+				return true
+			}
+			for _, e := range cc.List {
+				if se, ok := e.(*ast.StarExpr); ok {
+					if sel, ok := se.X.(*ast.SelectorExpr); ok && sel.Sel.Name == "Meta" {
+						metaCase = cc
+					}
+				}
+			}
+			return true
+		})
+		return false
+	})
+	if metaCase == nil {
+		vfEmit(map[string]any{"kind": "sharing", "found": false, "why": "no `case *query.Meta` in newMatchTree"})
+		return
+	}
+	var closures []*ast.FuncLit
+	usesCache := false
+	for _, st := range metaCase.Body {
+		ast.Inspect(st, func(n ast.Node) bool {
+			switch x := n.(type) {
+			case *ast.KeyValueExpr:
+				if k, ok := x.Key.(*ast.Ident); ok && k.Name == "predicate" {
+					if fl, ok := x.Value.(*ast.FuncLit); ok {
+						closures = append(closures, fl)
+					}
+				}
+			case *ast.SelectorExpr:
+				if x.Sel.Name == "docMatchTreeCache" {
+					usesCache = true
+				}
+			}
+			return true
+		})
+	}
+	var writes []string
+	for _, fl := range closures {
+		// identifiers declared inside the closure (parameters, :=, var, range) are its own
+		local := map[string]bool{}
+		ast.Inspect(fl, func(n ast.Node) bool {
+			switch x := n.(type) {
+			case *ast.FuncType:
+				if x.Params != nil {
+					for _, p := range x.Params.List {
+						for _, nm := range p.Names {
+							local[nm.Name] = true
+						}
+					}
+				}
+				if x.Results != nil {
+					for _, p := range x.Results.List {
+						for _, nm := range p.Names {
+							local[nm.Name] = true
+						}
+					}
+				}
+			case *ast.AssignStmt:
+				if x.Tok == token.DEFINE {
+					for _, l := range x.Lhs {
+						if id, ok := l.(*ast.Ident); ok {
+							local[id.Name] = true
+						}
+					}
+				}
+			case *ast.ValueSpec:
+				for _, nm := range x.Names {
+					local[nm.Name] = true
+				}
+			case *ast.RangeStmt:
+				if x.Tok == token.DEFINE {
+					for _, e := range []ast.Expr{x.Key, x.Value} {
+						if id, ok := e.(*ast.Ident); ok {
+							local[id.Name] = true
+						}
+					}
+				}
+			}
+			return true
+		})
+		var root func(e ast.Expr) string
+		root = func(e ast.Expr) string {
+			switch x := e.(type) {
+			case *ast.Ident:
+				return x.Name
+			case *ast.IndexExpr:
+				return root(x.X)
+			case *ast.SelectorExpr:
+				return root(x.X)
+			case *ast.StarExpr:
+				return root(x.X)
+			case *ast.ParenExpr:
+				return root(x.X)
+			}
+			return ""
+		}
+		note := func(e ast.Expr, pos token.Pos) {
+			if nm := root(e); nm != "" && nm != "_" && !local[nm] {
+				writes = append(writes, fmt.Sprintf("%s (matchtree.go:%d)", nm, fset.Position(pos).Line))
+			}
+		}
+		ast.Inspect(fl.Body, func(n ast.Node) bool {
+			switch x := n.(type) {
+			case *ast.AssignStmt:
+				if x.Tok != token.DEFINE {
+					for _, l := range x.Lhs {
+						note(l, x.Pos())
+					}
+				}
+			case *ast.IncDecStmt:
+				note(x.X, x.Pos())
+			case *ast.RangeStmt:
+				if x.Tok == token.ASSIGN {
+					for _, e := range []ast.Expr{x.Key, x.Value} {
+						if e != nil {
+							note(e, x.Pos())
+						}
+					}
+				}
+			}
+			return true
+		})
+	}
+	// does a cache hit return the cached node itself? (`return cached, nil` inside the clause)
+	returnsCached := false
+	for _, st := range metaCase.Body {
+		ast.Inspect(st, func(n ast.Node) bool {
+			if rs, ok := n.(*ast.ReturnStmt); ok && len(rs.Results) > 0 {
+				if id, ok := rs.Results[0].(*ast.Ident); ok && id.Name == "cached" {
+					returnsCached = true
+				}
+			}
+			return true
+		})
+	}
+	vfEmit(map[string]any{"kind": "sharing", "found": true, "closures": len(closures), "uses_cache": usesCache,
+		"captured_writes": writes, "returns_cached_node": returnsCached})
 }
